@@ -10,6 +10,7 @@ use crate::scen_hist::History;
 use crate::scen_hostile::{HostileCorpus, HostileMutate, HostileSweep};
 use crate::scen_life::Lifecycle;
 use crate::scen_misc::{Codec, HeaderFaults, HeaderRandom, Rejections};
+use crate::scen_spill::SpillUtil;
 use crate::scen_stream::{Fragmentation, SyncAsync};
 use crate::scen_write::{Canonical, StartPos, TornWrite};
 
@@ -32,17 +33,17 @@ pub fn plan(prop: &str, tier: Tier) -> Option<Plan> {
         "codec libraries (flate2, brotli, zstd) are a trusted base shared by crate and oracle".into(),
     ];
     let (p, level, batches): (&'static str, &'static str, Vec<Batch>) = match prop {
-        "C01" => ("C01", "exploration", vec![b(Lifecycle { prop: "C01", huge_pct: 1 }, 2500, 150_000, t)]),
+        "C01" => ("C01", "exploration", vec![b(Lifecycle { prop: "C01", huge_pct: 1, window_pct: 1 }, 2500, 150_000, t)]),
         "C02" => {
             assumptions.push("validator written from the v3 specification text; shares no code with the crate".into());
-            ("C02", "exploration", vec![b(Lifecycle { prop: "C02", huge_pct: 2 }, 2500, 150_000, t)])
+            ("C02", "exploration", vec![b(Lifecycle { prop: "C02", huge_pct: 2, window_pct: 5 }, 2500, 150_000, t)])
         }
         "C10" => {
             assumptions.push("64-bit content-hash collisions among generated contents are assumed not to occur".into());
-            ("C10", "exploration", vec![b(Lifecycle { prop: "C10", huge_pct: 1 }, 2000, 100_000, t), b(History { prop: "C10" }, 6000, 400_000, t)])
+            ("C10", "exploration", vec![b(Lifecycle { prop: "C10", huge_pct: 1, window_pct: 0 }, 2000, 100_000, t), b(History { prop: "C10" }, 6000, 400_000, t)])
         }
         "C04" => ("C04", "exploration", vec![b(History { prop: "C04" }, 12_000, 1_000_000, t)]),
-        "C06" => ("C06", "exploration", vec![b(Lifecycle { prop: "C06", huge_pct: 40 }, 150, 6000, t)]),
+        "C06" => ("C06", "exploration", vec![b(SpillUtil, 600, 60_000, t), b(Lifecycle { prop: "C06", huge_pct: 30, window_pct: 40 }, 150, 6000, t)]),
         "C03" => {
             assumptions.push("foreign archives come from the independent spec-level writer; each generated image is first accepted by the independent validator".into());
             ("C03", "exploration", vec![b(ForeignOpen, 2000, 120_000, t)])
